@@ -339,13 +339,17 @@ var solverNames = []string{"z3-new", "z3", "cvc5"}
 
 // Discharge decides PC ∧ ¬goal. body is the full SMT text up to (but excluding) check-sat.
 func Discharge(body string, timeoutMs int, hasQuant bool) SolveResult {
+	return DischargeCtx(context.Background(), body, timeoutMs)
+}
+
+func DischargeCtx(parent context.Context, body string, timeoutMs int) SolveResult {
 	start := time.Now()
 	// first a fast attempt with z3-new alone
 	fast := 2500
 	if timeoutMs < fast {
 		fast = timeoutMs
 	}
-	ctx, cancel := context.WithCancel(context.Background())
+	ctx, cancel := context.WithCancel(parent)
 	defer cancel()
 	v, model, reason := runSolver(ctx, "z3-new", scriptFor("z3-new", body, fast, true), fast)
 	if v != Unknown {
